@@ -50,6 +50,35 @@ PROPS = {
         "level_text": "Failure atomicity proved on the mirrors (a list failing at the k-th patch yields no document; refusal yields no state; degraded update keeps the previous document). Input immutability is partial: decided by runtime snapshots on generated histories and patch lists, since the value model cannot express Go aliasing.",
         "technique": "Coq proof of atomicity + runtime snapshot comparison (partial)",
     },
+    "C04": {
+        "props": "theories/Props/C04.v",
+        "agree": [],
+        "trusted_base": COMMON_TB + [
+            "SHA-256/512 in Gallina (Base/Sha2.v, checked against vectors and against the implementation on every case) - theorems are generic in the hash functions and use only their output lengths (proved for the instance)",
+            "jws.JWK JSON image (kty, crv, x, y always present; n, e, nonce omitted when empty) is modelled by the harness (jwkImage) and checked by correspondence",
+        ],
+        "assumptions": ["binding is stated modulo an explicit hash collision"],
+        "rule": "keys of the five types x optional nonce x codes {18,19,17,0}: reveal, commitment, commitment-from-reveal compared with the model (real SHA-2 in Gallina), plus a key differing in one member; chains create->(update|recover)*->deactivate built by the independent builder under algorithm lists [18],[19],[18,19],[19,18]: reveal/commitment reported by the real parser must link.",
+        "clauses": {"1": "reveal value differs from multihash(JCS(jwk)) / parser reported no reveal", "2": "commitment differs from multihash(H(H(JCS(jwk)))) / reveal does not map to predecessor commitment",
+                    "3": "commitment-from-reveal differs / deactivate reports a next commitment", "4": "commitment(reveal(k)) != commitment(k) / missing next commitment",
+                    "5": "commitment of modified key wrong", "6": "keys differing in one member share a commitment"},
+        "level_text": "commitment_from_reveal(reveal(k,c)) = commitment(k,c) proved for both algorithms from base64url and multihash round-trip lemmas; binding proved modulo explicit collisions; chain linkage checked by correspondence on generated chains with the values the real parser reports.",
+        "technique": "Coq proof (round-trip algebra) + differential correspondence with Gallina SHA-2",
+    },
+    "C06": {
+        "props": "theories/Props/C06.v",
+        "agree": [],
+        "trusted_base": COMMON_TB + [
+            "SHA-256/512 in Gallina; go-multihash 0.0.14 Decode/Encode and encoding/base64 RawURLEncoding (lenient decoder: CR/LF skipped, spare trailing bits ignored) are mirrored, not verified",
+            "value equality is equality of canonical forms (JCS); JCS injectivity on values is C05's subject",
+        ],
+        "assumptions": ["content addressing stated modulo an explicit hash collision"],
+        "rule": "random JSON objects/arrays given as raw bytes; codes {18,19,17,0x16,0,20,2^20}; per value: same text, 2 re-spellings, 2 single-point modifications, the other algorithm's hash, and 14-15 malformed encodings (bad alphabet, padding, truncated digest, extra byte, length field +-1, CR/LF, spare trailing bits, non-minimal varint...). Ground truth 'valid iff equal value and own algorithm' is attached by the generator.",
+        "clauses": {"1": "IsValidModelMultihash verdict differs from ground truth", "2": "verdict differs from model", "3": "GetMultihashCode differs",
+                    "4": "IsComputedUsingMultihashAlgorithms differs", "5": "CalculateModelMultihash differs from base64url(multihash(code,H(JCS(v))))", "6": "CalculateID differs"},
+        "level_text": "Definition, supported codes, code agreement, 'valid iff hash of this value under the hash's own algorithm' and content addressing (modulo explicit collision) proved generically in the hash functions; base64url and multihash round trips proved; decoder leniency modelled and shown harmless because validation compares encoded strings. Correspondence with real SHA-2 computed in Gallina.",
+        "technique": "Coq proof + differential correspondence with Gallina SHA-2",
+    },
     "C05": {
         "props": "theories/Props/C05.v",
         "agree": [],
